@@ -185,6 +185,28 @@ def leanchecker(modules, timeout=3000):
         lock.close()
 
 
+def _die_with_parent():
+    try:
+        import ctypes
+        import signal
+        ctypes.CDLL("libc.so.6").prctl(1, signal.SIGKILL)      # PR_SET_PDEATHSIG
+    except Exception:
+        pass
+
+
+def _kill_group(p):
+    import signal
+    try:
+        os.killpg(p.pid, signal.SIGKILL)
+    except Exception:
+        pass
+    try:
+        p.kill()
+        p.wait(timeout=5)
+    except Exception:
+        pass
+
+
 def run_driver(lines, nproc=8, timeout=3000):
     """Pipe lines through the model driver, return the output lines (same order)."""
     if not lines:
@@ -193,12 +215,21 @@ def run_driver(lines, nproc=8, timeout=3000):
     chunks = [lines[i::nproc] for i in range(nproc)]
 
     def one(chunk):
+        # `lean` is started directly (not through `lake env`, whose child would survive a kill of
+        # the wrapper), in its own session, and dies with this process; a timeout kills the group
+        env = dict(os.environ, LEAN_PATH=os.path.join(LEAN, ".lake", "build", "lib", "lean"))
+        p = subprocess.Popen(["lean", "--run", "Main.lean"], cwd=LEAN, env=env, text=True,
+                             stdin=subprocess.PIPE, stdout=subprocess.PIPE, stderr=subprocess.PIPE,
+                             start_new_session=True, preexec_fn=_die_with_parent)
         try:
-            p = subprocess.run(["lake", "env", "lean", "--run", "Main.lean"], cwd=LEAN,
-                               input="\n".join(chunk) + "\n", text=True, capture_output=True,
-                               timeout=timeout)
+            so, se = p.communicate("\n".join(chunk) + "\n", timeout=timeout)
         except subprocess.TimeoutExpired:
+            _kill_group(p)
             raise InfraError("driver timed out")
+        except BaseException:
+            _kill_group(p)
+            raise
+        p = subprocess.CompletedProcess(p.args, p.returncode, so, se)
         outs = p.stdout.split("\n")
         if outs and outs[-1] == "":
             outs.pop()
